@@ -18,6 +18,8 @@ import (
 	"time"
 
 	"github.com/Khan/genqlient/graphql"
+
+	"example.com/m"
 )
 
 type Op struct {
@@ -121,6 +123,20 @@ func toAny(v reflect.Value) interface{} {
 	return fmt.Sprint(v)
 }
 
+func resetCalls() {
+	for k := range m.Calls {
+		delete(m.Calls, k)
+	}
+}
+
+func snapCalls() map[string]int {
+	out := map[string]int{}
+	for k, v := range m.Calls {
+		out[k] = v
+	}
+	return out
+}
+
 // ---- tasks ----
 type Task struct {
 	ID   string          ` + "`json:\"id\"`" + `
@@ -143,6 +159,8 @@ type Result struct {
 	ReErr     string      ` + "`json:\"reerr,omitempty\"`" + `
 	RoundTrip bool        ` + "`json:\"roundtrip\"`" + `
 	Round2Err string      ` + "`json:\"round2err,omitempty\"`" + `
+	UserCallsDecode  map[string]int ` + "`json:\"ucd,omitempty\"`" + ` // calls of user (un)marshalers during the first decode
+	UserCallsMarshal map[string]int ` + "`json:\"ucm,omitempty\"`" + ` // ... during the re-marshal / the helper call
 	// call
 	Calls     int             ` + "`json:\"calls,omitempty\"`" + `
 	OpName    string          ` + "`json:\"opname,omitempty\"`" + `
@@ -253,13 +271,17 @@ func RunTask(t *Task) (res *Result) {
 		switch t.Kind {
 		case "decode":
 			v := op.New()
+			resetCalls()
 			err := json.Unmarshal(t.JSON, v)
+			res.UserCallsDecode = snapCalls()
 			if err != nil {
 				res.Err = err.Error()
 			}
 			res.Dump = Dump(reflect.ValueOf(v))
 			if err == nil {
+				resetCalls()
 				out, merr := json.Marshal(v)
+				res.UserCallsMarshal = snapCalls()
 				if merr != nil {
 					res.ReErr = merr.Error()
 				} else {
